@@ -288,7 +288,7 @@ def rule_R7(src, ed, lo, hi, fname, methods=("sum", "reduce", "count", "all", "m
     fired = []
     while i < hi:
         t = toks[i]
-        if (t.kind == "punct" and t.text == "." and toks[i + 1].kind == "ident"
+        if (not _skipped(i)) and (t.kind == "punct" and t.text == "." and toks[i + 1].kind == "ident"
                 and toks[i + 1].text in methods and toks[i + 2].text in ("(", "::")):
             name = toks[i + 1].text
             k = i + 2
@@ -423,16 +423,20 @@ def rule_R3(src, ed, lo, hi, fname):
         i += 1
 
 
+_F64_CONSTS = ("INFINITY", "NEG_INFINITY", "EPSILON", "MAX", "MIN", "MIN_POSITIVE", "NAN")
+
+
 def rule_R9(src, ed, lo, hi, fname):
     """associated float constants this Verus rejects: f64::INFINITY -> __inf(), f64::NEG_INFINITY ->
-    __neg_inf() (external_body wrappers whose bodies ARE the constants)."""
+    __neg_inf(), f64::EPSILON -> __f64_EPSILON(), ... (external_body wrappers whose bodies ARE the constants)."""
     toks = src.toks
     for i in range(lo, hi - 2):
         if _skipped(i):
             continue
-        if toks[i].text == "f64" and toks[i + 1].text == "::" and toks[i + 2].text in ("INFINITY", "NEG_INFINITY"):
-            new = "__inf()" if toks[i + 2].text == "INFINITY" else "__neg_inf()"
-            ed.replace(toks[i].pos, toks[i + 2].end, new, rule="R9 %s: f64::%s" % (fname, toks[i + 2].text))
+        if toks[i].text == "f64" and toks[i + 1].text == "::" and toks[i + 2].text in _F64_CONSTS:
+            name = toks[i + 2].text
+            new = {"INFINITY": "__inf()", "NEG_INFINITY": "__neg_inf()"}.get(name, "__f64_%s()" % name)
+            ed.replace(toks[i].pos, toks[i + 2].end, new, rule="R9 %s: f64::%s" % (fname, name))
 
 
 def rule_R2(src, ed, lo, hi, fname):
